@@ -309,7 +309,16 @@ class TimeRange(object):
             return in_range
 
     def __eq__(self, other):
-        return self.start == other.start and self.end == other.end and self.absolute == other.absolute
+        if self.start != other.start or self.end != other.end or self.absolute != other.absolute:
+            return False
+        elif self.absolute:
+            return True
+        else:
+            # A relative range is evaluated with respect to its own t0 when one is set (see
+            # FileIndex.get_time_range()), so relative ranges with equal bounds and different t0 select different data.
+            t0 = float(self.p1_t0) if self.p1_t0 else None
+            other_t0 = float(other.p1_t0) if other.p1_t0 else None
+            return t0 == other_t0
 
     def __ne__(self, other):
         return not (self == other)
